@@ -8,6 +8,7 @@ Binding: every enumerated request is made on a real EtherCat object through the 
       payload and the returned value (or the exception) are judged by TLC against Codec.tla."""
 import asyncio
 import json
+import math
 
 from harness import tlc as T
 
@@ -16,20 +17,35 @@ LEVEL = "model_checking"
 
 
 def fmt_string(fmt):
-    """the struct format string for a sequence of fields [c, n] (counts only for x and s)"""
-    return "".join((str(f["n"]) if f["c"] in "xs" else "") + f["c"] for f in fmt)
+    """the struct format string for a sequence of fields [c, n] (counts only for x, s and p)"""
+    return "".join((str(f["n"]) if f["c"] in "xsp" else "") + f["c"] for f in fmt)
 
 
-def py_value(f, v):
-    return bytes(v) if f["c"] == "s" else v[0] + (v[1] << 16)
+def py_value(v):
+    """item [t, lo, hi, b] -> the Python value it denotes (see the header of spec/Codec.tla)"""
+    t = v["t"]
+    if t == "int":
+        mag = sum(x << (16 * i) for i, x in enumerate(v["b"]))
+        return -mag if v["lo"] else mag
+    if t == "float":            # (-1)^lo * 1.b2b3... * 2^hi, exact for up to 53 bits
+        x = math.ldexp(int("".join(map(str, v["b"])), 2), v["hi"] - (len(v["b"]) - 1))
+        return -x if v["lo"] else x
+    if t == "fzero":
+        return -0.0 if v["lo"] else 0.0
+    if t == "finf":
+        return -math.inf if v["lo"] else math.inf
+    if t == "bool":
+        return bool(v["lo"])
+    if t == "bytes":
+        return bytes(v["b"])
+    raise ValueError(t)
 
 
 def call_args(req):
     args = []
     for g in req["groups"]:
         args.append(fmt_string(g["fmt"]))
-        fields = [f for f in g["fmt"] if f["c"] != "x"]
-        args.extend(py_value(f, v) for f, v in zip(fields, g["vals"]))
+        args.extend(py_value(v) for v in g["vals"])
     if req["ro"]["present"]:
         args.append(fmt_string(req["ro"]["fmt"]))
     d = req["data"]
@@ -42,11 +58,29 @@ def call_args(req):
 
 
 def item(x):
-    if isinstance(x, int) and not isinstance(x, bool) and 0 <= x < 2 ** 32:
-        return dict(t="int", lo=x & 0xFFFF, hi=x >> 16, b=[])
+    """a Python value -> item [t, lo, hi, b]; pure change of representation"""
+    if isinstance(x, bool):
+        return dict(t="bool", lo=int(x), hi=0, b=[])
+    if isinstance(x, int) and abs(x) < 2 ** 64:
+        return dict(t="int", lo=int(x < 0), hi=0, b=[(abs(x) >> (16 * i)) & 0xFFFF for i in range(4)])
+    if isinstance(x, float):
+        sign = int(math.copysign(1.0, x) < 0)
+        if math.isnan(x):
+            return dict(t="fnan", lo=0, hi=0, b=[])
+        if math.isinf(x):
+            return dict(t="finf", lo=sign, hi=0, b=[])
+        if x == 0:
+            return dict(t="fzero", lo=sign, hi=0, b=[])
+        m, e = math.frexp(abs(x))           # abs(x) = m * 2^e, 0.5 <= m < 1
+        bits = bin(int(m * 2 ** 53))[2:].rstrip("0")
+        return dict(t="float", lo=sign, hi=e - 1, b=[int(c) for c in bits])
     if isinstance(x, (bytes, bytearray)):
         return dict(t="bytes", lo=0, hi=0, b=list(x))
     return dict(t="other:" + repr(x)[:60], lo=0, hi=0, b=[])
+
+
+def show(a):
+    return a if isinstance(a, (str, int)) else repr(a) if isinstance(a, float) else list(a)
 
 
 async def one_call(req):
@@ -96,24 +130,46 @@ async def one_call(req):
     return ev
 
 
-def random_req(rng):
-    """extra random requests (seed-dependent, never used for gating)"""
-    def field():
-        c = rng.choice("BHIxs")
-        return dict(c=c, n=rng.randint(1, 9) if c in "xs" else 1)
+SIZES = dict(B=1, b=1, H=2, h=2, I=4, i=4, L=4, l=4, Q=8, q=8)
+FLOATS = dict(e=(10, 15), f=(23, 127), d=(52, 1023))      # fraction bits, bias
 
-    def value(f):
-        if f["c"] == "s":
-            return [rng.randint(0, 255) for _ in range(f["n"])]
-        top = {"B": 0xFF, "H": 0xFFFF, "I": 0xFFFFFFFF}[f["c"]]
-        v = rng.choice([0, top, rng.randint(0, top)])
-        return [v & 0xFFFF, v >> 16]
+
+def random_value(rng, f):
+    """a random value the field can carry (floats: exactly representable, normal / 0 / inf)"""
+    c = f["c"]
+    if c in SIZES:
+        bits = 8 * SIZES[c]
+        lo, hi = (0, 2 ** bits - 1) if c.isupper() else (-2 ** (bits - 1), 2 ** (bits - 1) - 1)
+        return item(rng.choice([lo, hi, 0, -1 if lo else 1, rng.randint(lo, hi),
+                                rng.randint(max(lo, -300), min(hi, 300))]))
+    if c in FLOATS:
+        fw, bias = FLOATS[c]
+        k = rng.random()
+        if k < 0.08:
+            return dict(t="fzero", lo=rng.randint(0, 1), hi=0, b=[])
+        if k < 0.14:
+            return dict(t="finf", lo=rng.randint(0, 1), hi=0, b=[])
+        n = rng.choice([1, 2, 3, rng.randint(1, fw + 1), fw + 1])
+        bits = [1] + [rng.randint(0, 1) for _ in range(n - 2)] + ([1] if n > 1 else [])
+        e = rng.choice([rng.randint(-3, 8), rng.randint(1 - bias, bias), 1 - bias, bias])
+        return dict(t="float", lo=rng.randint(0, 1), hi=e, b=bits)
+    if c == "?":
+        return dict(t="bool", lo=rng.randint(0, 1), hi=0, b=[])
+    n = 1 if c == "c" else rng.choice([f["n"], f["n"], max(0, f["n"] - 1), rng.randint(0, f["n"] + 3)])
+    return dict(t="bytes", lo=0, hi=0, b=[rng.randint(0, 255) for _ in range(n)])
+
+
+def random_req(rng):
+    """extra random requests over all field codes (seed-dependent, never used for gating)"""
+    def field():
+        c = rng.choice("BHILQbhilqefd?cxsp")
+        return dict(c=c, n=rng.randint(1, 9) if c in "xsp" else 1)
 
     groups = []
     for _ in range(rng.randint(0, 4)):
         fmt = [field() for _ in range(rng.randint(1, 3))]
         groups.append(dict(name=fmt_string(fmt), fmt=fmt,
-                           vals=[value(f) for f in fmt if f["c"] != "x"]))
+                           vals=[random_value(rng, f) for f in fmt if f["c"] != "x"]))
     ro = dict(present=False, name="", fmt=[])
     if rng.random() < 0.5:
         fmt = [field() for _ in range(rng.randint(1, 3))]
@@ -139,7 +195,7 @@ def judge(ctx, wd, reqs):
                       nontrivial=nfmt >= 1 and (len(r["groups"]) >= 1 or r["data"]["kind"] != "none"))
         if nfmt >= 2 and r["data"]["kind"] == "bytes" and r["data"]["n"] and len(ctx.samples) < 3:
             args, kw = call_args(r)
-            ctx.sample(dict(args=[a if isinstance(a, (str, int)) else list(a) for a in args],
+            ctx.sample(dict(args=[show(a) for a in args],
                             data=list(kw["data"]), ev=t["ev"]))
         if matched != length or isinstance(inv, str):
             bad = t["ev"][matched] if matched < length else None
@@ -154,17 +210,16 @@ def judge(ctx, wd, reqs):
                 f"Codec: {bad}")
 
 
-def run(ctx):
-    wd = ctx.workdir()
-    names = ["B", "H", "I", "HI", "H2xH", "4x", "8s"]
-    if ctx.quick:
-        groups, variants, rseeds = 2, [0], [37]
-    else:
-        groups, variants, rseeds = 3, [0, 1], [37]
+OLD = ["B", "H", "I", "HI", "H2xH", "4x", "8s"]                # unsigned, padding, byte string
+NEW = ["bh", "iq", "QlL", "e", "f", "Hd", "?c", "5p"]            # signed, 64 bit, float, bool, char, Pascal
+MIX = ["H", "8s", "iq", "f", "Hd", "?c"]
+
+
+def enumerate_requests(ctx, wd, names, groups, variants):
     T.write_cfg(wd, "scripts.cfg", f"""SPECIFICATION SSpec
 CONSTANTS MaxGroups = {groups}
           Variants = {{{", ".join(map(str, variants))}}}
-          RSeeds = {{{", ".join(map(str, rseeds))}}}
+          RSeeds = {{37}}
           FmtNames = {{{", ".join(json.dumps(n) for n in names)}}}
 INVARIANTS RoundTripInv
            Emit
@@ -175,19 +230,37 @@ CHECK_DEADLOCK FALSE
     if not res.ok:
         raise T.MachineryError("Codec.tla: encoder and decoder disagree:\n" + res.counterexample())
     ctx.tlc_stats(res)
-    reqs = [r[0] for r in T.printed_records(res, "SCRIPT")]
+    return [r[0] for r in T.printed_records(res, "SCRIPT")]
+
+
+def run(ctx):
+    wd = ctx.workdir()
+    if ctx.quick:
+        plans = [(OLD, 2, [0]), (NEW, 1, [0]), (MIX, 2, [0])]
+    else:
+        plans = [(OLD, 3, [0, 1]), (OLD + NEW, 2, [0, 1])]
+    seen, reqs = set(), []
+    for names, groups, variants in plans:
+        for r in enumerate_requests(ctx, wd, names, groups, variants):
+            key = json.dumps(r, sort_keys=True)
+            if key not in seen:
+                seen.add(key)
+                reqs.append(r)
     if len(reqs) < 500:
         raise T.MachineryError(f"only {len(reqs)} requests enumerated")
     ctx.extra["requests"] = len(reqs)
     judge(ctx, wd, reqs)
-    extra = [random_req(ctx.rng) for _ in range(300 if ctx.quick else 5000)]
+    extra = [random_req(ctx.rng) for _ in range(400 if ctx.quick else 6000)]
     judge(ctx, wd, extra)
     ctx.exhaustive = True
-    ctx.rule = (f"all requests with 0..{groups} valued format strings from {names} (values "
-                f"rotating through boundary tables, {len(variants)} rotations), without / with each "
-                f"trailing read-only format, data in {{absent, 0, 3, b'', 1-3 bytes}}, "
-                f"TLC-enumerated, plus {len(extra)} random requests; non-trivial = at least one "
-                f"format and (a value or raw data)")
+    ctx.rule = ("all requests TLC enumerates for the plans "
+                + "; ".join(f"0..{g} valued format strings from {n}, {len(v)} value rotation(s)"
+                            for n, g, v in plans)
+                + " - each without / with every trailing read-only format and data in {absent, 0, "
+                  "3, b'', 1-3 bytes}; values rotate through boundary tables per field code "
+                  "(unsigned, signed, 64-bit, binary16/32/64 floats with fractions, zeros and "
+                  f"infinities, bool, char, byte and Pascal strings); plus {len(extra)} random requests "
+                  "over all struct codes; non-trivial = at least one format and (a value or raw data)")
 
 
 def replay(ctx, case):
